@@ -11,7 +11,7 @@ ENGINES = [
     {'name': 'mmdrv', 'path': 'driver/', 'serves_properties': ALLP,
      'kind_free_text': 'rustc_private driver (RUSTC_WORKSPACE_WRAPPER): exports structured MIR, resolved callees '
                        'and the effect closure (user code / unwinding / dyn / alloc / extern) of every call and drop site'},
-    {'name': 'mmcheck', 'path': 'mmcheck/', 'serves_properties': [p for p in ALLP if p != 'C06'],
+    {'name': 'mmcheck', 'path': 'mmcheck/', 'serves_properties': list(ALLP),
      'kind_free_text': 'abstract interpreter over the exported MIR: difference-bound zone over usize terms, slot '
                        'exceptions (holes / extras / ranges) per container, inlining of local callees, models of '
                        'core, unwinding into cleanup blocks, loop-head joins with widening'},
@@ -92,12 +92,16 @@ TEXT = {
         'note': BASE,
     },
     'C06': {
-        'engine': 'E1 mmdrv effect closures + graph rules',
-        'technique': 'reachability over the resolved call graph through core\'s generic MIR; crate graph; type closure',
+        'engine': 'E1 mmdrv effect closures + graph rules; E2 mmcheck slot interpreter for the element-reference clause',
+        'technique': 'reachability over the resolved call graph through core\'s generic MIR; crate graph; type closure; '
+                     'abstract interpretation of MIR with reference provenance (rule INSIDE)',
         'level': 'Proof: the default build links only core (and is #![no_std]); in every configuration (std and '
                  'serde features included) no instance reachable from any micromap body through core\'s own MIR is an '
                  'allocator entry or lives outside core/micromap; no field of any type mentions alloc/std types, raw '
-                 'pointers or statics; storage is an inline [MaybeUninit<(K,V)>; N].',
+                 'pointers or statics; storage is an inline [MaybeUninit<(K,V)>; N]; and on every normal-return path of '
+                 'the 27 roots whose result is an element reference (lookups, Index/IndexMut, Set::get, the entry API, '
+                 'next() of the borrowing and lazy set iterators) every reference in the result has the provenance '
+                 '"slot of a container the caller owns" (INSIDE; dev and release MIR).',
         'note': 'callee resolution by rustc; functions of core without MIR are non-generic core code (core has no allocator); '
                 'user trait methods (K: Clone, S: Serializer, ...) are excluded as in the statement',
     },
